@@ -428,7 +428,7 @@ func lzmaWCases(r *core.Run, prop string) []LZWCase {
 	// a dictionary above 16 MiB (the header's dictionary size needs its fourth byte) with a repeat 17 MiB back
 	add(LZWCase{Cfg: LZCfg{DictCap: 20 << 20}, Shape: []Seg{{K: "T", Seed: 10, N: 3000}, {K: "Z", N: 17 << 20}, {K: "K", N: 3000}}})
 	if prop == "C07" {
-		return cases
+		return lzmaFeedVariants(cases)
 	}
 	// (d) all write partitions of 6-byte inputs
 	for _, in := range [][]byte{[]byte("abcabc"), {0, 0, 'a', 0, 'a', 'b'}} {
@@ -517,26 +517,29 @@ func lzmaWCases(r *core.Run, prop string) []LZWCase {
 		}
 		rec(nil)
 	}
-	// the inputs of the families without explicit properties again, handed over by io.Copy from
-	// bare readers (which prefers a ReadFrom method of the writer, should it have one)
-	{
-		base := cases
-		for _, c := range base {
-			if c.Hist || len(c.Parts) > 0 || c.Cfg.Props || c.ByteSink {
-				continue
+	cases = lzmaFeedVariants(cases)
+	return cases
+}
+
+// lzmaFeedVariants: the inputs of the families without explicit properties again, handed over by io.Copy
+// from bare readers (which prefers a ReadFrom method of the writer, should it have one).
+func lzmaFeedVariants(cases []LZWCase) []LZWCase {
+	base := cases
+	for _, c := range base {
+		if c.Hist || len(c.Parts) > 0 || c.Cfg.Props || c.ByteSink {
+			continue
+		}
+		feeds := []int{1, 2, 3, 4}
+		if len(buildShape(c.Shape)) > 6000 {
+			if c.Cfg.Matcher != 0 || c.Cfg.BufSize == 273 || c.Cfg.EOS {
+				continue // cost bound: long inputs with the hash-table matcher and one termination mode each
 			}
-			feeds := []int{1, 2, 3, 4}
-			if len(buildShape(c.Shape)) > 6000 {
-				if c.Cfg.Matcher != 0 || c.Cfg.BufSize == 273 || c.Cfg.EOS {
-					continue // cost bound: long inputs with the hash-table matcher and one termination mode each
-				}
-				feeds = []int{2, 3}
-			}
-			for _, f := range feeds {
-				q := c
-				q.Feed = f
-				cases = append(cases, q)
-			}
+			feeds = []int{2, 3}
+		}
+		for _, f := range feeds {
+			q := c
+			q.Feed = f
+			cases = append(cases, q)
 		}
 	}
 	return cases
